@@ -1,6 +1,8 @@
 import LyModel.XsdRe.Parse
 import LyModel.XsdRe.ToPcre
 import LyModel.XsdRe.Rewrite
+import LyModel.XsdRe.Sem
+import LyModel.XsdRe.RewriteSub
 /-! driver ops of component `xsdre` (C18) -/
 namespace LyModel.XsdRe.Drv
 open LyModel LyModel.XsdRe
@@ -25,6 +27,39 @@ def parseFlags (s : String) : Fixes :=
   let fs := s.splitOn ","
   { f1 := fs.contains "f1", f25 := fs.contains "f25", f186 := fs.contains "f186", f190 := fs.contains "f190",
     f187 := fs.contains "f187" }
+
+/-- the fragment of `Props/C18Sem.rewrite_preserves_language` -/
+def inFragment (p : Pat) : Bool := p.Canon && p.inDialect .pcre && p.noNul && p.noClsBrace
+
+def quantName (lo : Nat) : Option Nat → String
+  | none => if lo = 0 then "q*" else if lo = 1 then "q+" else "q{n,}"
+  | some hi => if lo = 0 ∧ hi = 1 then "q?" else if lo = hi then "q{n}" else "q{n,m}"
+
+def chrName (inCls : Bool) (c : Char) : String :=
+  if c == '\n' || c == '\r' || c == '\t' then "chr-nrt"
+  else if (if inCls then clsMetaChars else metaChars).contains c then "chr-escaped"
+  else if c == '^' || c == '$' then "chr-anchor"
+  else if c.toNat ≥ 128 then "chr-nonascii" else "chr-plain"
+
+def itemConstructs : CItem → List String
+  | .ch c => ["cls-" ++ chrName true c]
+  | .range _ _ => ["cls-range"]
+  | .esc neg e => ["cls-esc-" ++ e.feature neg]
+
+/-- the constructs of the printer that occur in a tree (distribution report of the check) -/
+def patConstructs : Pat → List String
+  | .eps => ["empty-branch"]
+  | .chr c => [chrName false c]
+  | .dot => ["dot"]
+  | .esc neg e => ["esc-" ++ e.feature neg]
+  | .cls cc => (if cc.length > 1 then ["cls-subtraction"] else []) ++
+      cc.flatMap fun g => (if g.neg then "cls-neg" else "cls-pos") :: g.items.flatMap itemConstructs
+  | .alt a b => "alt" :: (patConstructs a ++ patConstructs b)
+  | .cat a b => "cat" :: (patConstructs a ++ patConstructs b)
+  | .rep p lo hi => quantName lo hi :: patConstructs p
+  | .group p => "group" :: patConstructs p
+
+def b01 (b : Bool) : String := if b then "1" else "0"
 
 def handle (op : String) (args : List String) : String :=
   match op, args with
@@ -64,7 +99,7 @@ def handle (op : String) (args : List String) : String :=
   | "rewrite", [fl, ph] =>
     match Hex.dec ph with
     | some p =>
-      match rewriteWith (parseFlags fl) p with
+      match rewriteSrc (parseFlags fl) p with
       | .ok t => "ok " ++ Hex.enc t
       | .error e => "err " ++ e.name
     | none => "err BadHex"
@@ -75,6 +110,26 @@ def handle (op : String) (args : List String) : String :=
       | .error e => "err " ++ e.name
       | .ok pat => "ok " ++ Hex.enc (bytesOfString pat.toPcre)
     | none => "err BadHex"
+  | "canon", [ph] =>
+    -- parse, print canonically, parse again; the fragment predicate; the theorem instance `rewrite_render` evaluated
+    match Hex.dec ph with
+    | some p =>
+      match parseXsd p with
+      | .error e => "err " ++ e.name
+      | .ok pat =>
+        let txt := renderXsd pat
+        let back := match parseChars txt with | .ok q => q == pat | .error _ => false
+        let frag := inFragment pat
+        let sem := match rewriteSrc Fixes.all (utf8 txt) with
+          | .ok t => t == utf8 (pat.render .pcre) && (match parseCharsD .pcre (pat.render .pcre) with | .ok q => q == pat | .error _ => false)
+          | .error _ => false
+        "ok " ++ Hex.enc (utf8 txt) ++ " " ++ b01 back ++ " " ++ b01 pat.Canon ++ " " ++ b01 frag ++ " " ++ b01 sem ++ " " ++
+          Hex.enc (utf8 (pat.render .pcre)) ++ " " ++ ";".intercalate (patConstructs pat).eraseDups
+    | none => "err BadHex"
+  | "subtraction", _ => "ok " ++ b01 Generated.UBlocks.subtraction
+  | "negblocks", _ => "ok " ++ b01 Generated.UBlocks.negBlocks
+  | "mce", _ => "ok " ++ (if Generated.UBlocks.mceTable.isEmpty then "-" else
+      String.ofList (Generated.UBlocks.mceTable.map fun e => Char.ofNat e.1.toNat))
   | "opts", _ => "ok " ++ ",".intercalate (Generated.UBlocks.compileOpts.toArray.qsort (· < ·)).toList
   | "features", [ph] =>
     match Hex.dec ph with
